@@ -5,7 +5,7 @@
 WT=/var/tmp/seedwt
 OUT=/verif/seeded/VERIFY.tsv
 cd /verif/seeded
-SEEDS="$@"; [ -z "$SEEDS" ] && SEEDS=$(ls -d C*_* )
+SEEDS="$@"; [ -z "$SEEDS" ] && SEEDS=$(ls -d C*_* r2_C*_* 2>/dev/null)
 if [ ! -d $WT ]; then
   git -C /repo worktree add --detach $WT HEAD >/dev/null 2>&1 || exit 2
   (cd $WT && cmake -G Ninja -S . -B _b -DCMAKE_BUILD_TYPE=RelWithDebInfo -DBUILD_TESTING=ON -DFETCHCONTENT_SOURCE_DIR_GOOGLETEST=/usr/src/googletest -DCMAKE_CXX_FLAGS=-Wno-error -DCMAKE_C_FLAGS=-Wno-error >/dev/null 2>&1 && cmake --build _b -j14 >/dev/null 2>&1) || { echo "baseline build failed"; exit 2; }
